@@ -188,6 +188,9 @@ def cell_option_tokens(c, skip=()):
     # c['extra_kw'] = (list written before IMP, list written last)
     extra = c.get('extra_kw') or ((), ())
     toks += extra_kw_tokens(extra[0])
+    if c.get('params_in_data'):
+        # U and FILL are given by data cards (deck['extra_data'])
+        skip = tuple(skip) + ('u', 'fill')
     toks += _cell_option_tokens(c, skip)
     toks += extra_kw_tokens(extra[1])
     return toks
